@@ -29,15 +29,15 @@ CLAIMED = {
     ),
     "C07": dict(
         category="proof",
-        text="Contracts on find_global_peaks_rough and find_global_peaks (no refinement): for every (sample, channel), if some cell reaches the threshold the reported value bounds every cell, is attained, and the reported point is a cell attaining it; otherwise the point is NaN and the value 0 -- for all map sizes, ties, batch/channel counts and thresholds. The tied-maxima defect of the pinned tree was found by this check and repaired (fix: commit 4cbc914).",
+        text="Contracts on find_global_peaks_rough and find_global_peaks (no refinement): for every (sample, channel), if some cell reaches the threshold the reported value bounds every cell, is attained, and the reported point is a cell attaining it; otherwise the point is NaN and the value 0 -- for all map sizes, ties, batch/channel counts and thresholds; relational: the same map as the only channel and as channel b among several gives the same point and value ('one channel's result does not depend on the others'; with integral refinement for 1 vs 2 channels, patch 3/5). The tied-maxima defect of the pinned tree was found by this check and repaired (fix: commit 4cbc914).",
         note="domain: finite maps (no NaN cells); torch.max contract = documented guarantee (a maximal value and an index attaining it; row-major flat index for the merged H*W axis). Not decided: integral refinement of global peaks (obligations generated, solver unknown) and the analytic 'moves toward the true centre' clause.",
         technique="contract-based deductive verification: symbolic execution of the real Python source against sidecar contracts, VCs discharged by z3 (cvc5 for unknowns)",
         design="3/C07",
     ),
     "C15": dict(
         category="proof",
-        text="Contracts on compute_instance_area and compute_oks: the result equals the closed form sum over gt-visible nodes of (prediction missing ? 0 : exp(-d^2/norm)) / #gt-visible (both normalisations, scalar scale or bounding-box area) for any number of gt/predicted instances, coordinates and NaN patterns; from it: OKS in [0,1], 1 for identical poses, gt-missing nodes ignored, prediction-missing nodes score 0, result entry (g,p) depends only on poses g and p (re-ordering instances permutes the matrix), and no exception escapes. The IndexError for more than one prediction in the pinned tree was found by the totality obligation and repaired (fix: commit 727654a).",
-        note="node axis unrolled (1..2 nodes quick, 1..4 thorough); domain: >= 1 gt-visible node, stddev > 0, scale >= 0; numpy op models trusted and cross-checked. Not decided: monotonicity in the keypoint distance, translation invariance as a separate obligation, match_instances / greedy_matching / compute_iou / compute_cosine_sim.",
+        text="Contracts on compute_instance_area and compute_oks: the result equals the closed form sum over gt-visible nodes of (prediction missing ? 0 : exp(-d^2/norm)) / #gt-visible (both normalisations, scalar scale or bounding-box area) for any number of gt/predicted instances, coordinates and NaN patterns; from it: OKS in [0,1], 1 for identical poses, gt-missing nodes ignored, prediction-missing nodes score 0, result entry (g,p) depends only on poses g and p (re-ordering instances permutes the matrix), and no exception escapes. BOUNDED part (shared with C16): match_instances for 1..2 ground-truth x 0..2 predicted instances: pairs / false negatives are instances of the two frames, nothing matched twice, the false negatives are exactly the unmatched ground truth, match scores in (0,1]. The IndexError for more than one prediction in the pinned tree was found by the totality obligation and repaired (fix: commit 727654a).",
+        note="node axis unrolled (1..2 nodes quick, 1..4 thorough); domain: >= 1 gt-visible node, stddev > 0, scale >= 0; numpy op models trusted and cross-checked. Not decided: monotonicity in the keypoint distance, translation invariance as a separate obligation, greedy_matching / compute_iou / compute_cosine_sim, larger frames in match_instances.",
         technique="contract-based deductive verification: symbolic execution of the real Python source against sidecar contracts, generic arithmetic lemmas instantiated explicitly, VCs discharged by z3 (cvc5 for unknowns)",
         design="3/C15",
     ),
@@ -99,8 +99,8 @@ CLAIMED = {
     ),
     "C12": dict(
         category="proof",
-        text="Relational (two-run) contracts, all batch sizes symbolic: the real function is executed on batch A and on batch B where sample b of B is sample a of A and all other samples of B (and the batch size) are arbitrary; proved: find_global_peaks_rough / find_global_peaks, SingleInstanceInferenceModel.forward and FindInstancePeaks.forward (both stride variants) report for that sample exactly the same points, values (and crop bounding box), and each run's output carries the frame_idx / video_idx (/centroid) tensors of its own batch unchanged. For find_local_peaks_rough / find_local_peaks the per-sample functional characterisation is proved instead: the rows are exactly the strict local maxima above threshold, each once, in increasing (sample,row,column,channel) order with their own sample/channel index -- so a sample's rows are a function of that sample's maps alone and empty samples contribute no rows without shifting the others. BOUNDED part: CentroidCrop.forward (return_crops=False) for a batch of 2 frames with 0..2(3) centroids each and max_instances in {None,1,2} (detector abstracted to its C06 characterisation; points, values, scales symbolic): each frame's rows are its OWN centroids scaled by its own eff_scale followed by NaN padding, none twice, and with max_instances set the kept ones are the highest-scoring; integral refinement of find_global_peaks relationally for a frame alone vs. one of two samples (1 channel, patch 3/5).",
-        note="ASSUMED: the network maps each sample independently of its batch-mates in eval mode (ghost TableNet); torch.max/argmax return the first maximal index (torch documentation). Not decided: CentroidCrop with return_crops=True (_generate_crops: crops carrying the indices of their frame, skipped all-NaN samples) and use_gt_centroids, PAFScorer batch glue (BottomUpInferenceModel's per-sample split is decided under C03); _predict_generator metadata alignment is decided for bounded frame counts (consumer-loop contract shared with C13).",
+        text="Relational (two-run) contracts, all batch sizes symbolic: the real function is executed on batch A and on batch B where sample b of B is sample a of A and all other samples of B (and the batch size) are arbitrary; proved: find_global_peaks_rough / find_global_peaks, SingleInstanceInferenceModel.forward and FindInstancePeaks.forward (both stride variants) report for that sample exactly the same points, values (and crop bounding box), and each run's output carries the frame_idx / video_idx (/centroid) tensors of its own batch unchanged. For find_local_peaks_rough / find_local_peaks the per-sample functional characterisation is proved instead: the rows are exactly the strict local maxima above threshold, each once, in increasing (sample,row,column,channel) order with their own sample/channel index -- so a sample's rows are a function of that sample's maps alone and empty samples contribute no rows without shifting the others. BOUNDED part: CentroidCrop.forward for a batch of 2 frames with 0..2(3) centroids each and max_instances in {None,1,2} (detector abstracted to its C06 characterisation; points, values, scales symbolic): with return_crops=False each frame's rows are its OWN centroids scaled by its own eff_scale followed by NaN padding, none twice, and with max_instances set the kept ones are the highest-scoring; with return_crops=True there is one crop dict per frame WITH detections, in frame order, carrying the frame index, video index, eff_scale and centroid values of its own frame (an empty frame is skipped without shifting its batch-mates); channel independence of find_global_peaks (the map alone vs. one of several channels; integral refinement for 1 vs 2 channels); integral refinement of find_global_peaks relationally for a frame alone vs. one of two samples (1 channel, patch 3/5).",
+        note="ASSUMED: the network maps each sample independently of its batch-mates in eval mode (ghost TableNet); torch.max/argmax return the first maximal index (torch documentation). Not decided: CentroidCrop with use_gt_centroids and the crop pixels themselves, PAFScorer batch glue (BottomUpInferenceModel's per-sample split is decided under C03); _predict_generator metadata alignment is decided for bounded frame counts (consumer-loop contract shared with C13).",
         technique="contract-based deductive verification: relational two-run symbolic execution of the real Python source, VCs discharged by z3 (cvc5 for unknowns)",
         design="3/C12",
     ),
@@ -127,7 +127,7 @@ CLAIMED = {
     ),
     "C14": dict(
         category="proof",
-        text="PARTIAL CLAIM -- UNet family, shapes only. For each configuration of the (finite) grid max_stride x output_stride x stem_stride x filters_rate x convs_per_block x up_interpolate x middle_block x head type/strides (quick: a sample of 34; thorough: the full grid of 720) the real constructors (Model.__init__, get_head, get_backbone, UNet.from_config, Encoder, Decoder, SimpleConvBlock, SimpleUpsamplingBlock, Head.make_head, MaxPool2dWithSamePadding) are executed and the real Model.forward / UNet.forward / Encoder.forward / Decoder.forward / MaxPool2dWithSamePadding.forward are symbolically executed twice on the same model object with inputs B x C x (max_stride*h) x (max_stride*w), all of B, h, w symbolic and different between the calls. Proved: no layer rejects its input (the channel bookkeeping of encoder, decoder, skip connections and heads lines up), one output per head named after it, with (parts | 2 x edges) channels and spatial size input / head stride, on both calls.",
+        text="PARTIAL CLAIM -- UNet family, shapes only. For each configuration of the (finite) grid max_stride x output_stride x stem_stride x filters_rate x convs_per_block x up_interpolate x middle_block x head type/strides (quick: a sample of 68; thorough: the full grid) the real constructors (Model.__init__, get_head, get_backbone, UNet.from_config, Encoder, Decoder, SimpleConvBlock, SimpleUpsamplingBlock, Head.make_head, MaxPool2dWithSamePadding) are executed and the real Model.forward / UNet.forward / Encoder.forward / Decoder.forward / MaxPool2dWithSamePadding.forward are symbolically executed twice on the same model object with inputs B x C x (max_stride*h) x (max_stride*w), all of B, h, w symbolic and different between the calls. Proved: no layer rejects its input (the channel bookkeeping of encoder, decoder, skip connections and heads lines up), one output per head named after it, with (parts | 2 x edges) channels and spatial size input / head stride, on both calls.",
         note="torch.nn layers enter through trusted SHAPE contracts (Conv2d, ConvTranspose2d, BatchNorm2d, activations, Upsample, Sequential, ModuleList, max_pool2d, pad: channel-count precondition and documented output size); layer VALUES are not modelled, so 'deterministic, independent of earlier calls and of batch-mates' is decided only as far as shapes go. Not decided: ConvNeXt and Swin-T backbones (torchvision internals). Known findings C14/convs-per-block-1, C14/no-middle-block and C14/head-at-max-stride (UNet with convs_per_block=1, with middle_block=False, or with a head at the max stride raises in forward for every input) are carved out of the grid (convs_per_block >= 2, middle_block=True, head strides < max_stride) and re-confirmed from committed witnesses on every run.",
         technique="contract-based deductive verification: symbolic execution of the real Python source with library layers under shape contracts, VCs discharged by z3",
         design="3/C14",
